@@ -148,6 +148,23 @@ func c06Valid() []string {
 		"select !(a) as a where true", "select a + a as a where true", "select key, a * 2 as b, b - 1 as c, c / 2 as a where a > 1", "select a ^= 'x' as a where a",
 		"select list(a)[0] as a where true", "select list(a)[0] + 1 as a where true", "select int_list(a)[0] as a where a > 0", "select key, list(b, 1)[0] + 1 as a, a * 2 as b where b > 0",
 		"select sum(a) + 1 as a where true", "select a[0] as a where true", "select json(a)['x'] as a where true", "select split(a, ',')[0] + 'x' as a where true order by a")
+	// reference cycles through every syntactic position a field name can take,
+	// of length 2 and 3: each must end in an error value, not in the analysis
+	// chasing the references forever
+	cyc := []string{"!{}", "{} + 'a'", "'a' + {}", "{} + 1", "{} & true", "false | {}", "upper({})", "{} in ('a')", "'a' in ({}, 'b')", "{} between 'a' and 'b'", "'b' between {} and 'c'",
+		"{}[0]", "list({})[0]", "{} = 'a'", "{}", "int({}) + 1", "!({} = 'a')", "join(',', {}, {})", "json({})['a']", "sum({})", "{} ^= 'a'"}
+	at := func(c, name string) string { return strings.ReplaceAll(c, "{}", name) }
+	for _, c1 := range cyc {
+		for _, c2 := range cyc {
+			add("select " + at(c1, "y") + " as x, " + at(c2, "x") + " as y where true")
+			for _, c3 := range cyc[:12] {
+				add("select " + at(c1, "y") + " as x, " + at(c2, "z") + " as y, " + at(c3, "x") + " as z where true")
+				// a field outside the cycle that refers into it
+				add("select " + at(c1, "y") + " as x, " + at(c2, "z") + " as y, " + at(c3, "y") + " as z where true")
+			}
+		}
+		add("select "+at(c1, "x")+" as x where true", "select key, "+at(c1, "x")+" as x where x = 'a'")
+	}
 	// zero-argument / odd-arity calls of every function
 	fns := []string{"lower", "upper", "int", "float", "str", "is_int", "is_float", "substr", "json", "split", "list", "float_list", "int_list", "flist", "ilist", "len", "join", "strlen", "cosine_distance", "l2_distance",
 		"count", "sum", "avg", "min", "max", "quantile", "json_arrayagg", "group_concat"}
